@@ -296,13 +296,14 @@ package objects
 
 // capacity change (RM forced): the ledger identity is re-established; returns the delta
 //@ func (sn *Node) SetCapacity(newCapacity *resources.Resource) (delta *resources.Resource)
-//@   props C01
+//@   props C01 C02
 //@   holds inv(sn)
 //@   requires okR(newCapacity) && sepN(sn, newCapacity) && mag(newCapacity)
 //@   assigns sn.totalResource, sn.availableResource, newCapacity.Resources[*]
 //@   ensures inv(sn)
 //@   ensures[capacity] forall t Key :: rv(sn.totalResource, t) == old(rv(newCapacity, t))
 //@   ensures[delta] delta != nil ==> (forall t Key :: rv(delta, t) == old(rv(newCapacity, t)) - old(rv(sn.totalResource, t)))
+//@   ensures[nodelta] delta == nil ==> (forall t Key :: old(rv(newCapacity, t)) == old(rv(sn.totalResource, t)))
 //@   ensures[frame] forall t Key :: rv(sn.allocatedResource, t) == old(rv(sn.allocatedResource, t)) && rv(sn.occupiedResource, t) == old(rv(sn.occupiedResource, t))
 
 //@ func (sn *Node) SetOccupiedResource(occupiedResource *resources.Resource)
@@ -831,6 +832,7 @@ package objects
 //@   holds forall k string :: (k in sa.placeholderData) ==> sa.placeholderData[k] != nil
 //@   at[tracked] fieldaddr PlaceholderData.TimedOut#*: assert base != nil
 //@   at[releaseall] call objects.Application.removeAsksInternal#1: assert arg1 == ""
+//@   at[notinflight] call objects.Allocation.SetReleased#1: assert arg0 == alloc && arg1 && !alloc.released
 
 // a new node starts with the ledger identity in place
 //@ func NewNode(proto *si.NodeInfo) (sn *Node)
@@ -879,10 +881,12 @@ package objects
 
 // the state timer only fires its event if the application is still in the state the timer was armed for
 //@ func (sa *Application) timeoutStateTimer$calls(objects.Application.HandleApplicationEvent)()
-//@   props C10
+//@   props C10 C06
 //@   sweep
 //@   mode nopanic=off
 //@   at[recheck] call objects.Application.HandleApplicationEvent#1: assert arg0 == sa && arg1 == event && appState(sa) == expectedState
+//@   at[notinflight:C06] call objects.Allocation.SetReleased#1: assert arg0 == alloc && arg1 && !alloc.released
+//@   at[timedout:C06] append toRelease#1: assert elem == alloc
 
 // completion is only requested when nothing is outstanding: no pending ask, no real allocation (and, when asks are
 // removed, no placeholder allocation and not already completing or failing)
@@ -1133,3 +1137,23 @@ package objects
 //@   ensures[memo] qps != nil && old(qps.QueuePath in copy) ==> out == old(copy[qps.QueuePath])
 //@   ensures[fields] qps != nil && !old(qps.QueuePath in copy) ==> out != nil && fresh(out) && out.QueuePath == qps.QueuePath && out.Leaf == qps.Leaf && out.AskQueue == qps.AskQueue && ((out.Parent == nil) <==> (qps.Parent == nil))
 //@   ensures[ledgers] qps != nil && !old(qps.QueuePath in copy) ==> sameRes(out.AllocatedResource, qps.AllocatedResource) && sameRes(out.PreemptingResource, qps.PreemptingResource) && sameRes(out.MaxResource, qps.MaxResource) && sameRes(out.GuaranteedResource, qps.GuaranteedResource)
+
+// what the partition adds to / takes from the cluster total (and with it the root maximum) when a node comes, changes or
+// goes is exactly that node's capacity (change)
+//@ func (sn *Node) GetCapacity() (c *resources.Resource)
+//@   props C02
+//@   mode nopanic=off
+//@   assigns nothing
+//@   ensures sameRes(c, sn.totalResource) && (c != nil ==> fresh(c))
+
+// the asker's side of the priority comparison: walking up from the asker's leaf, each queue records the ask priority
+// adjusted by its OWN policy (a priority fence resets it to the offset, otherwise the offset is ADDED) and hands that
+// value to its parent
+//@ spec askPrio(q *Queue, p int) int = q.priorityPolicy == policies.FencePriorityPolicy ? q.priorityOffset : wrap64(p + q.priorityOffset)
+//@ func (sq *Queue) findPreemptionFenceRoot(priorityMap map[string]int64, currentPriority int64, askResource *resources.Resource) (root *Queue)
+//@   props C07
+//@   sweep
+//@   mode nopanic=off
+//@   at[up] call objects.Queue.findPreemptionFenceRoot#1: assert arg0 == sq.parent && arg1 == priorityMap && arg2 == askPrio(sq, old(currentPriority)) && arg3 == askResource && priorityMap[sq.QueuePath] == askPrio(sq, old(currentPriority))
+//@   ensures[recorded] sq != nil && ncalls(objects.Queue.findPreemptionFenceRoot) == 0 ==> root == sq && priorityMap[sq.QueuePath] == askPrio(sq, old(currentPriority))
+//@   ensures[nil] sq == nil ==> root == nil
